@@ -25,7 +25,7 @@ func init() { Register(c11{}) }
 func (c11) ID() string    { return "C11" }
 func (c11) Level() string { return "fault_enumeration" }
 func (c11) Rule() string {
-	return "workload = seeded fault-free writer run (any Add/Write/Close history incl. empty Writes and records pending at Close, 0..4 row groups, benign or random-byte strings, page size 1..8, three codecs, three shapes) producing a file of L bytes on the sim disk. Cases: the writer crashes at EVERY byte: every strict prefix 0..L-1 is opened and iterated with the documented client loop (files above 64 KiB: every cut in the last 4 KiB and within 8 bytes of each sink-call boundary plus a seeded sample; files of the 70-column shape: every cut in the last 256 bytes, every cut that ends in the magic, and a seeded 1-in-8 sample of the rest). Source kind cycles through ReadSeeker; +ByteReader; +ByteReader+ReaderAt+WriterTo. Non-trivial = cut > 4 (more than the leading magic is durable); distinct = distinct (file digest, cut)."
+	return "workload = seeded fault-free writer run (any Add/Write/Close history incl. empty Writes and records pending at Close, 0..4 row groups, benign or random-byte strings, page size 1..8, three codecs, three shapes) producing a file of L bytes on the sim disk. Cases: the writer crashes at EVERY byte: every strict prefix 0..L-1 is opened and iterated with the documented client loop (files above 64 KiB: every cut in the last 4 KiB and within 8 bytes of each sink-call boundary plus a seeded sample; files of the 70-column shape: every cut in the last 256 bytes, every cut that ends in the magic, and a seeded 1-in-8 sample of the rest). Source kind cycles through ReadSeeker; +ByteReader; +ByteReader+ReaderAt+WriterTo; file-like. One cut in eight is read through a source that also fragments its reads (random / 1..3 bytes / fixed 1..7, with or without data+EOF); one cut in sixteen (big classes: at most twelve cuts inside the trailer) through a source OBJECT that served the complete file before the crash and is re-opened on the prefix (a handle held open; same identity, same name). One workload in five is an embedded-trailer file (three constructions: an older export of the same table that the prefix cannot satisfy; a near miss whose last page is cut short; an attachment written from another struct), read in a sandbox child. One file in four of shapes flat, kv, nested is read by the code generated for a struct with the same columns in another field order. Non-trivial = cut > 4 (more than the leading magic is durable); distinct = distinct (file digest, cut)."
 }
 func (c11) Assumptions() []string {
 	return []string{
@@ -35,7 +35,7 @@ func (c11) Assumptions() []string {
 	}
 }
 func (c11) Probes() []string {
-	return []string{"cut/page-header", "cut/page-body", "cut/footer", "cut/footer-len", "cut/tail-magic", "cut/clean-boundary", "cut/magic", "outcome/ctor-error", "rawbytes", "directed/trailer-coincidence-file", "directed/embedded-trailer-file", "codec/gzip", "codec/snappy", "codec/uncompressed"}
+	return []string{"cut/page-header", "cut/page-body", "cut/footer", "cut/footer-len", "cut/tail-magic", "cut/clean-boundary", "cut/magic", "outcome/ctor-error", "rawbytes", "directed/trailer-coincidence-file", "directed/embedded-trailer-file", "directed/embedded-foreign-attachment", "source/held-open-across-the-crash", "source/fragmenting", "reader/permuted-struct", "class/giant-page", "codec/gzip", "codec/snappy", "codec/uncompressed"}
 }
 func (c11) Runs(tier string) int {
 	if tier == "thorough" {
@@ -73,6 +73,9 @@ func (p c11) Run(runseed uint64, tier string, acc *Acc) []*core.Violation {
 		if ef := mk(r); ef != nil {
 			f, ok = ef, true
 			acc.Inc("directed/embedded-trailer-file")
+			if ef.Foreign {
+				acc.Inc("directed/embedded-foreign-attachment")
+			}
 		}
 	} else if r.Chance(1, 16) {
 		// directed arm: hunt for a file in which a crash point in the trailer matters
@@ -578,7 +581,7 @@ func embeddedForeignFile(r *core.Rng) *fileWL {
 	if !ok {
 		return nil
 	}
-	f := &fileWL{W: outer, Ref: ref, Data: ref.Sink.Data, Want: core.Flatten(ref.Batches), Regions: sinkRegions(ref)}
+	f := &fileWL{W: outer, Ref: ref, Data: ref.Sink.Data, Want: core.Flatten(ref.Batches), Regions: sinkRegions(ref), Foreign: true}
 	f.Digest = core.HashBytes(append([]byte(outer.HistoryString()), f.Data...))
 	return f
 }
